@@ -320,7 +320,7 @@ func (d *cborDecDriver[T]) ContainerType() (vt valueType) {
 	if d.h.SkipUnexpectedTags {
 		d.skipTags()
 	}
-	if d.bd == cborBdNil {
+	if d.bd == cborBdNil || d.bd == cborBdUndefined { // same as advanceNil (TryNil)
 		d.bdRead = false // always consume nil after seeing it in container type
 		return valueTypeNil
 	}
